@@ -524,7 +524,7 @@ mod verif_queuing {
         std::mem::forget(q);
     }
 
-    //@H name=c16_handler_on_error_rev props=C16,C20 tier=thorough fn=QueuingMetricSinkBuilder::with_capacity,with_error_handler,build :: same with the capacity configured BEFORE the handler
+    //@H name=c16_handler_on_error_rev mem=heavy props=C16,C20 tier=thorough fn=QueuingMetricSinkBuilder::with_capacity,with_error_handler,build :: same with the capacity configured BEFORE the handler
     #[kani::proof]
     #[kani::unwind(3)]
     fn c16_handler_on_error_rev() {
@@ -642,7 +642,7 @@ mod verif_queuing {
         std::mem::forget(r); std::mem::forget(w);
     }
 
-    //@H name=c08_build_clone_drop props=C08,C09,C20 tier=thorough bound="history through the real build(): clone, drop the clone, submit, worker runs" fn=QueuingMetricSinkBuilder::build + Clone + Drop :: handles created by the real build(): dropping a clone while the original is alive requests no stop; a metric accepted afterwards is delivered
+    //@H name=c08_build_clone_drop mem=heavy props=C08,C09,C20 tier=thorough bound="history through the real build(): clone, drop the clone, submit, worker runs" fn=QueuingMetricSinkBuilder::build + Clone + Drop :: handles created by the real build(): dropping a clone while the original is alive requests no stop; a metric accepted afterwards is delivered
     #[kani::proof]
     #[kani::unwind(3)]
     fn c08_build_clone_drop() {
@@ -658,7 +658,7 @@ mod verif_queuing {
         std::mem::forget(q);
     }
 
-    //@H name=c09_build_releases_wrapped props=C09,C20 tier=thorough bound="history: build, drop last handle, thread ends" fn=QueuingMetricSinkBuilder::build + Drop :: ownership built by build(): once the last handle is gone and the thread has ended, the wrapped sink itself is dropped (so a wrapped buffered sink flushes)
+    //@H name=c09_build_releases_wrapped mem=heavy props=C09,C20 tier=thorough bound="history: build, drop last handle, thread ends" fn=QueuingMetricSinkBuilder::build + Drop :: ownership built by build(): once the last handle is gone and the thread has ended, the wrapped sink itself is dropped (so a wrapped buffered sink flushes)
     #[kani::proof]
     #[kani::unwind(4)]
     fn c09_build_releases_wrapped() {
